@@ -106,6 +106,7 @@ func checkProperty(prop string, tier int, tierName string, re *regexp.Regexp, cf
 	var taints []TaintFinding
 	var notes []string
 	var steps int64
+	feasQ := 0
 	harnessCount := 0
 	taintSites := map[string]int{}
 	cases := 0
@@ -184,6 +185,7 @@ func checkProperty(prop string, tier int, tierName string, re *regexp.Regexp, cf
 			allObs = append(allObs, r.Obs...)
 		}
 		steps += e.steps
+		feasQ += e.feasQueries
 	}
 	// classify
 	nTriv, nUnsat, nSat, nUnk, nReachOK := 0, 0, 0, 0, 0
@@ -350,7 +352,8 @@ func checkProperty(prop string, tier int, tierName string, re *regexp.Regexp, cf
 	ev := Evidence{
 		PropertyID: prop, Tier: tierName, Seed: seed, Level: "model_checking",
 		Coverage: map[string]interface{}{
-			"evaluations":              queries + replayed + taintEvals*boolInt(prop == "C20"),
+			"evaluations":              queries + replayed + feasQ + taintEvals*boolInt(prop == "C20"),
+			"path_feasibility_queries": feasQ,
 			"distinct_nontrivial":      nUnsat + nSat + nUnk + nTaintDistinct,
 			"symbolic_sites_examined_for_taint": len(taintSites),
 			"symbolic_site_visits":     taintEvals,
